@@ -112,8 +112,15 @@ pub fn eval(case: &DdCase, obs: &mut CaseObs, prop: &str) -> Verdict {
     }
     let (c_exact, c_bv) = match out.completion {
         Some(Ok(x)) => x,
-        _ => return Verdict::HarnessError("main compilation was cut off".into()),
+        _ => {
+            // interrupted by the cutoff: the diagram promises nothing (C12 / C13 still look at its call log)
+            obs.label("main-compilation-cut-off");
+            return Verdict::Pass;
+        }
     };
+    if case.main.cut_at.is_some() {
+        obs.label("main-compilation-with-cutoff-armed-but-completed");
+    }
     if c_exact != out.is_exact || c_bv != out.best_value {
         return fail(format!("Completion {{is_exact: {c_exact}, best_value: {c_bv:?}}} disagrees with the accessors"));
     }
@@ -287,7 +294,9 @@ fn run(ctx: &mut Ctx, prop: &'static str) {
     };
     let dds = vec![DdKind::Lel, DdKind::Frontier, DdKind::Pooled];
     let cases = ctx.tier.pick(80_000, 800_000);
-    let strat = dd_case_strategy(GenParams::default_small(), types.clone(), dds.clone());
+    // C07: the compilation under test may be interrupted at a generated poll; whenever it nevertheless
+    // returns Ok, everything it reports must hold (added after seeded change C07-S1)
+    let strat = dd_case_strategy_cut(GenParams::default_small(), types.clone(), dds.clone(), prop == "C07");
     ctx.pt_run("dd-random", cases, strat, |c| serde_json::to_value(c).unwrap(), |c, obs| eval(c, obs, prop));
     // long-arc models (depth free, irrelevance) with the pooled dd get their own share
     let mut p = GenParams::default_small();
